@@ -324,7 +324,7 @@ def _poly(node, env=None, F=None, depth=0):
         n = K.peel(n["e"])
     if F is not None and depth < 2 and isinstance(n, dict) and n.get("k") in ("MethodCall", "Call"):
         cal = K.callee_of(n)
-        hb = F.bodies.get(cal) if cal else None
+        hb = F.any_body(cal) if cal else None
         if hb is not None and hb.hir and hb.path.startswith(("storage::", "<storage::")):
             return _poly(hb.hir["value"], None, F, depth + 1)
     ev = KN.Eval(outer_env=env or {})
